@@ -398,7 +398,7 @@ func (x *symExec) eval(e ast.Expr, p *symPath) *sym {
 
 // cond records a path condition and the atoms it forces to zero.
 func (x *symExec) cond(e ast.Expr, val bool, p *symPath) {
-	txt := types.ExprString(e)
+	txt := x.condText(e, p)
 	if !val {
 		txt = "!(" + txt + ")"
 	}
@@ -510,6 +510,44 @@ func (x *symExec) stmt(st ast.Stmt, p *symPath) []*symPath {
 			out = append(out, x.stmt(s.Else, f)...)
 		} else {
 			out = append(out, f)
+		}
+		return out
+	}
+	if sw, ok := st.(*ast.SwitchStmt); ok && sw.Init == nil {
+		// `switch { case c1: … case c2: … default: … }` is the chain if c1 {…} else if c2 {…} else {…};
+		// a tagged switch compares the tag with each case expression
+		var out []*symPath
+		rest := p
+		var deflt *ast.CaseClause
+		for _, cs := range sw.Body.List {
+			cc := cs.(*ast.CaseClause)
+			if cc.List == nil {
+				deflt = cc
+				continue
+			}
+			var cond ast.Expr
+			for _, e := range cc.List {
+				ce := e
+				if sw.Tag != nil {
+					ce = &ast.BinaryExpr{X: sw.Tag, Op: token.EQL, Y: e}
+				}
+				if cond == nil {
+					cond = ce
+				} else {
+					cond = &ast.BinaryExpr{X: cond, Op: token.LOR, Y: ce}
+				}
+			}
+			t := rest.fork()
+			x.cond(cond, true, t)
+			out = append(out, x.block(cc.Body, []*symPath{t})...)
+			f := rest.fork()
+			x.cond(cond, false, f)
+			rest = f
+		}
+		if deflt != nil {
+			out = append(out, x.block(deflt.Body, []*symPath{rest})...)
+		} else {
+			out = append(out, rest)
 		}
 		return out
 	}
@@ -636,4 +674,36 @@ func c32Bounds(r *core.Run) {
 		r.Undecided(rule, "common.NewDivBigIntMemoryUsage", "does not resolve")
 	}
 	r.Floor(rule, 20)
+}
+
+// condText renders a path condition with local variables replaced by their symbolic values and parameters by a, b —
+// so that keys of reviewed paths and known findings do not depend on the names of locals.
+func (x *symExec) condText(e ast.Expr, p *symPath) string {
+	switch v := e.(type) {
+	case *ast.ParenExpr:
+		return "(" + x.condText(v.X, p) + ")"
+	case *ast.BinaryExpr:
+		return x.condText(v.X, p) + " " + v.Op.String() + " " + x.condText(v.Y, p)
+	case *ast.UnaryExpr:
+		return v.Op.String() + x.condText(v.X, p)
+	case *ast.Ident:
+		if obj := x.info.Uses[v]; obj != nil {
+			if s, ok := p.env[obj]; ok {
+				return s.String()
+			}
+			if nm, ok := x.params[obj]; ok {
+				return nm
+			}
+		}
+		return v.Name
+	case *ast.SelectorExpr:
+		return x.condText(v.X, p) + "." + v.Sel.Name
+	case *ast.CallExpr:
+		var args []string
+		for _, a := range v.Args {
+			args = append(args, x.condText(a, p))
+		}
+		return x.condText(v.Fun, p) + "(" + strings.Join(args, ", ") + ")"
+	}
+	return types.ExprString(e)
 }
